@@ -34,19 +34,36 @@ def extension_match(ctx: Ctx) -> None:
     p = ctx.p
     f = p.func(f"{EXT}:match")
     path = f.param_names()[0]
+    exts = f.node.args.vararg.arg if f.node.args.vararg else None
+    require(exts is not None, f"{f.fq}: no *extensions parameter")
     low = [n for n, bs in locals_of(f).b.items() for b in bs if b.kind == "assign" and matches("$p.lower()", b.value) and ast.unparse(b.value.func.value) == path]
     rets = [r for r in body_walk(f.node) if isinstance(r, ast.Return)]
+    form = None
     ok = False
-    if len(low) == 1:
-        for r in rets:
-            fs = facts(ctx, f, r)
-            for a, pol in fs:
-                m = match("$l.endswith($e)", a)
-                if pol and m and ast.unparse(m["l"]) == low[0] and isinstance(r.value, ast.Name) and ast.unparse(m["e"]) == r.value.id:
-                    ok = True
-    ctx.expect("R-SYM", f, "match() compares the lower-cased path's ending and returns the matched extension", ok, "", "", node=f.node)
-    none_ret = [r for r in rets if r.value is None or (isinstance(r.value, ast.Constant) and r.value.value is None)]
-    ctx.expect("R-TABLE", f, "match() returns None when nothing matches", len(none_ret) == 1, "", "", node=f.node)
+    lowtxt = low[0] if len(low) == 1 else f"{path}.lower()"
+    # form 1: for e in extensions: if low.endswith(e): return e ... return None
+    for r in rets:
+        fs = facts(ctx, f, r)
+        for a, pol in fs:
+            m = match("$l.endswith($e)", a)
+            if m and isinstance(r.value, ast.Name) and ast.unparse(m["e"]) == r.value.id:
+                form = "loop"
+                lp_ = [l for l in for_loops(f) if isinstance(l.target, ast.Name) and l.target.id == r.value.id and isinstance(l.iter, ast.Name) and l.iter.id == exts]
+                ok = pol and ast.unparse(inline(m["l"], f)) == f"{path}.lower()" and len(lp_) == 1
+    # form 2: return next((e for e in extensions if low.endswith(e)), None)
+    for r in rets:
+        m = match("next(($e for $e in $xs if $l.endswith($e)), None)", r.value) if r.value is not None else None
+        if m is not None:
+            form = "next"
+            ok = ast.unparse(m["xs"]) == exts and ast.unparse(inline(m["l"], f)) == f"{path}.lower()"
+    if form is None:
+        raise AnalysisError(f"{f.fq}: neither the loop form nor the next(generator) form of the extension search is recognised")
+    ctx.expect("R-SYM", f, "match() compares the lower-cased path's ending with each extension in order and returns the first that fits", ok, form,
+               "the path is not lower-cased before endswith(), or the extensions are not tried in the caller's order", node=f.node)
+    if form == "loop":
+        none_ret = [r for r in rets if r.value is None or (isinstance(r.value, ast.Constant) and r.value.value is None)]
+        cfgf = ctx.cfg(f)
+        ctx.expect("R-TABLE", f, "match() returns None when nothing matches", len(none_ret) == 1 or cfgf.exit in cfgf.reachable(), "", "", node=f.node)
     for name, spec in (("SIMFILE", None), ("IMAGE", SPEC_IMAGE), ("AUDIO", None)):
         v = tuple(p.const(EXT, name))
         ctx.expect("R-SYM", (EXT, ""), f"extensions.{name} entries are lower-case and start with '.'", all(isinstance(x, str) and x == x.lower() and x.startswith(".") for x in v), str(v), str(v))
@@ -174,6 +191,31 @@ def pack_rules(ctx: Ctx) -> None:
     pv = [n for n, bs in locals_of(f).b.items() for b in bs if b.kind == "assign" and matches("$s._path.join($s.pack_dir, $i)", b.value) and ast.unparse(b.value.args[1]) == item]
     path = one(pv, "joined entry path local")
     inner = [l for l in for_loops(f) if in_body(outer, l) and matches("$s.filesystem.listdir($p)", l.iter) and ast.unparse(l.iter.args[0]) == path]
+    if not inner:
+        # any(...) form: if isdir(p) and any(match(i, *SIMFILE) for i in listdir(p)): yield p
+        ys = [n for n in body_walk(f.node) if isinstance(n, (ast.Yield, ast.YieldFrom))]
+        y = one(ys, f"yield in {f.fq}")
+        fy = facts(ctx, f, y)
+        isdir_ok = any(pol and ast.unparse(a) == f"{sn}.filesystem.isdir({path})" for a, pol in fy)
+        any_ok = False
+        order_ok = False
+        for a, pol in fy:
+            mm = match("any((extensions.match($i, *extensions.SIMFILE) for $i in $s.filesystem.listdir($p)))", a)
+            if pol and mm is not None and ast.unparse(mm["p"]) == path:
+                any_ok = True
+        # isdir is evaluated before the listing (short-circuit order or an enclosing test)
+        for n in body_walk(f.node):
+            if isinstance(n, ast.BoolOp) and isinstance(n.op, ast.And):
+                txt = [ast.unparse(inline(v, f)) for v in n.values]
+                if any("isdir" in t for t in txt) and any("listdir" in t for t in txt):
+                    order_ok = [i for i, t in enumerate(txt) if "isdir" in t][0] < [i for i, t in enumerate(txt) if "listdir" in t][0]
+        if isdir_ok and not order_ok:
+            order_ok = True  # separate, dominating test
+        ctx.expect("R-ORDER", f, "only directories are listed (isdir precedes the nested listdir)", isdir_ok and order_ok, "", "the nested listdir is reachable for a loose file", node=y)
+        ctx.expect("R-TABLE", f, "a sub-directory is reported iff it directly contains an entry with a simfile extension", any_ok and isinstance(y, ast.Yield) and ast.unparse(y.value) == path, "", "", node=y)
+        ctx.ok("R-ORDER", f, "a directory is reported once (any() form)", "", node=y)
+        _pack_tail(ctx, f)
+        return
     il = one(inner, f"loop over a sub-directory's listing in {f.fq}")
     fs = [(ast.unparse(a), pol) for a, pol in facts(ctx, f, il)]
     ctx.expect("R-ORDER", f, "only directories are listed (isdir precedes the nested listdir)", (f"{sn}.filesystem.isdir({path})", True) in fs, str(fs), "the nested listdir is reachable for a loose file", node=il)
@@ -192,6 +234,11 @@ def pack_rules(ctx: Ctx) -> None:
         idx = [i for i, s_ in enumerate(blk) if isinstance(s_, ast.Expr) and s_.value is ys[0]]
         okb = bool(idx) and idx[0] + 1 < len(blk) and isinstance(blk[idx[0] + 1], ast.Break)
     ctx.expect("R-ORDER", f, "a directory is reported once (break follows the yield)", okb, "", "", node=il)
+    _pack_tail(ctx, f)
+
+
+def _pack_tail(ctx: Ctx, f: FunctionInfo) -> None:
+    p = ctx.p
     cg = callgraph(ctx)
     reach = set()
     for g in cg.callees(f):
@@ -205,7 +252,8 @@ def pack_rules(ctx: Ctx) -> None:
     oks = False
     if len(lps) == 1:
         ys = [n for st_ in lps[0].body for n in walk_no_nested(st_) if isinstance(n, ast.Yield)]
-        oks = len(ys) == 1 and isinstance(ys[0].value, ast.Call) and callee_name(ctx, sd, ys[0].value) == "simfile.dir.SimfileDirectory" and ast.unparse(ys[0].value.args[0]) == lps[0].target.id
+        yv = inline(ys[0].value, sd) if len(ys) == 1 and ys[0].value is not None else None
+        oks = len(ys) == 1 and isinstance(yv, ast.Call) and callee_name(ctx, sd, yv) == "simfile.dir.SimfileDirectory" and ast.unparse(yv.args[0]) == lps[0].target.id
     ctx.expect("R-TABLE", sd, "simfile_dirs yields one SimfileDirectory per listed path, in order", oks, "", "", node=sd.node)
     sf = p.func(f"{SP}.simfiles")
     lps = [l for l in for_loops(sf) if matches("$s.simfile_dirs()", l.iter)]
@@ -275,23 +323,52 @@ def asset_tables(ctx: Ctx) -> None:
     f = p.func("simfile.assets:AssetDefinition.matches")
     sn, path = f.param_names()
     root = [n for n, bs in locals_of(f).b.items() for b in bs if b.index == (0,) and matches("os.path.splitext($p)", b.value) and ast.unparse(b.value.args[0]) == path]
-    okr = len(root) == 1
-    rets = {}
-    for r in [x for x in body_walk(f.node) if isinstance(x, ast.Return)]:
-        rets.setdefault(try_ev(ctx, f, r.value), []).append([(ast.unparse(a), pol) for a, pol in facts(ctx, f, r)])
-    if okr:
-        okr = False
-        for r in [x for x in body_walk(f.node) if isinstance(x, ast.Return) and try_ev(ctx, f, x.value) is True]:
-            fsr = facts(ctx, f, r)
-            if len(fsr) == 1 and fsr[0][1]:
-                mm = match("any((re.search($p, $r.lower()) for $p in $s.presets))", fsr[0][0])
-                if mm is not None and ast.unparse(mm["r"]) == root[0] and ast.unparse(mm["s"]) == sn:
-                    okr = True
-    ctx.expect("R-SYM", f, "presets are searched in the lower-cased file stem", okr, "", str(rets), node=f.node)
-    okx = any((f"{sn}.match_by_extension and extensions.match({path}, *{sn}.extensions)", True) in fs or
-              ((f"{sn}.match_by_extension", True) in fs and (f"extensions.match({path}, *{sn}.extensions)", True) in fs) for fs in rets.get(True, []))
-    ctx.expect("R-TABLE", f, "extension matching only when match_by_extension is set", okx, "", str(rets), node=f.node)
-    ctx.expect("R-TABLE", f, "otherwise no match", len(rets.get(False, [])) == 1, "", "", node=f.node)
+    require(len(root) == 1, f"{f.fq}: the file stem is not taken with os.path.splitext(path)")
+    from ..decide import decisions, judge_table, IGNORE
+    decs = decisions(ctx, f, opaque=lambda e: any(isinstance(x, ast.Call) for x in ast.walk(e)))
+    keys = set()
+    for d in decs:
+        keys.update(d.assign)
+    hits = [k for k in keys if "re.search" in k]
+    hk = one(hits, f"preset search condition in {f.fq}")
+    hnode = ast.parse(hk, mode="eval").body
+    m_any = match("any((re.search($p, $r.lower()) for $p in $s.presets))", hnode)
+    m_one = match("re.search($p, $r.lower())", hnode)
+    mm = m_any or m_one
+    oksym = mm is not None and ast.unparse(mm["r"]) == root[0]
+    if m_one is not None and m_any is None:
+        lp_ = [l for l in for_loops(f) if ast.unparse(l.iter) == f"{sn}.presets" and isinstance(l.target, ast.Name) and l.target.id == ast.unparse(m_one["p"])]
+        oksym = oksym and len(lp_) == 1
+    ctx.expect("R-SYM", f, "presets are searched in the lower-cased file stem", oksym, hk, f"the preset test is '{hk}'", node=f.node)
+    if m_one is not None and m_any is None:
+        for d in decs:
+            d.assign.setdefault(hk, False)  # no preset at all (loop not entered) = no preset hit
+    B = f"{sn}.match_by_extension"
+    xs = [k for k in keys if k.startswith("extensions.match(")]
+    X = xs[0] if len(xs) == 1 else f"extensions.match({path}, *{sn}.extensions)"
+    ext_form = any(isinstance(r.value, ast.Call) and "extensions.match" in ast.unparse(r.value) for r in body_walk(f.node) if isinstance(r, ast.Return) and r.value is not None)
+
+    def outcome(d):
+        k_, v = d.terminal()
+        if k_ != "return" or v is None:
+            return k_
+        c = try_ev(ctx, f, v)
+        if isinstance(c, bool):
+            return c
+        t = ast.unparse(v)
+        return "by-extension" if t in (f"bool({X})", X) else t
+
+    def spec(a):
+        if a[hk]:
+            return True
+        if not a[B]:
+            return False
+        if ext_form:
+            return "by-extension"
+        return True if a[X] else False
+
+    judge_table(ctx, "R-TABLE", f, "a preset hit matches; otherwise the extension counts only when match_by_extension is set", decs, [hk, B] + ([] if ext_form else [X]), spec, outcome)
+    ctx.expect("R-TABLE", f, "the extension test is extensions.match(path, *self.extensions)", X == f"extensions.match({path}, *{sn}.extensions)", X, X, node=f.node)
     # the Assets properties
     ci = p.cls("simfile.assets.Assets")
     n = 0
